@@ -85,6 +85,27 @@ def run_cell(cell, seed):
         okc, d, ratio = util.compare_many([('out[%d]' % i, c_, util.np64(a * p + b * q))
                                            for i, (c_, p, q) in enumerate(zip(yc, yx, yy))], tol)
         out.append(res(HELD, case, 'M-SUPER', ratio=ratio) if okc else res(VIOLATED, case, 'M-SUPER', d, ratio=ratio))
+    if len(xs) > 1:
+        # block superposition: x keeps some arguments and has exact zeros elsewhere, y the complement
+        case = {'cell': cell, 'check': 'block-superposition'}
+        keep = [rnd.random() < 0.5 for _ in xs]
+        if all(keep) or not any(keep):
+            keep[0] = not keep[0]
+        xa = [p if k else torch.zeros_like(p) for p, k in zip(xs, keep)]
+        xb = [torch.zeros_like(p) if k else p for p, k in zip(xs, keep)]
+        oka, ya = util.call_lib(ad.apply, xa)
+        okb, yb = util.call_lib(ad.apply, xb)
+        if not (oka and okb):
+            out.append(res(VIOLATED, case, 'M-SUPER', 'transform raised on a pyramid with exactly-zero entries: %r' % (
+                (ya if not oka else yb),)))
+        else:
+            if any(tuple(u.shape) != tuple(w.shape) for u, w in zip(ya, yx)) or any(tuple(u.shape) != tuple(w.shape) for u, w in zip(yb, yx)):
+                out.append(res(VIOLATED, case, 'M-SUPER', 'output shape depends on which entries are exactly zero: %s / %s vs %s' % (
+                    [tuple(u.shape) for u in ya], [tuple(u.shape) for u in yb], [tuple(u.shape) for u in yx])))
+            else:
+                okc, d, ratio = util.compare_many([('out[%d]' % i, u + w, util.np64(f)) for i, (u, w, f) in enumerate(zip(ya, yb, yx))],
+                                                  64 * util.EPS64 * G * mx * 2)
+                out.append(res(HELD, case, 'M-SUPER', ratio=ratio) if okc else res(VIOLATED, case, 'M-SUPER', d, ratio=ratio))
     case = {'cell': cell, 'check': 'T(0)'}
     ok0, y0 = util.call_lib(ad.apply, zs)
     if not ok0:
